@@ -69,7 +69,7 @@ export VERIF_TAGS="$TAGS"
 export VERIF_GTS_BIN="$V/bin/gts.$$"
 cleanup() { rm -f "$BIN" "$VERIF_GTS_BIN" "$V/bin/build.$$.log"; rm -rf "$OVL"; [ -n "$SCR" ] && rm -rf "$SCR"; }
 case "${2:-}" in
-  C14|C15)
+  C12|C14|C15|C19)
     if ! (cd "$REPO" && go build -o "$VERIF_GTS_BIN" ./cmd/gts) 2> "$V/bin/build.$$.log"; then
       echo "HARNESS-ERROR: build of the gts binary from $REPO failed:" >&2; cat "$V/bin/build.$$.log" >&2; exit 3
     fi;;
